@@ -1,5 +1,6 @@
 """C05 — node renumbering is a pure relabelling with parents before children."""
 import io
+import re
 import warnings
 
 import numpy as np
@@ -402,6 +403,43 @@ def check_relabelling(inp, out, what):
     return res
 
 
+# ----------------------------------------------------------------------------------------------------------------------
+# family "the caller's own COLUMN NAMES": every table / tree entry point takes `names=SWCNames(...)` — the table then carries its
+# numbering, parents and payload under those names (and may carry columns that merely LOOK like the default names: an "id" column
+# that is a database key, say — an extra per-node column like any other).  The tree is the same tree; the numbering the property
+# speaks of is the one in the columns the caller named.  The name table is stored in the case; SWCNames is built in run().
+NAME_POOL = {"id": ["n", "node", "ID", "idx", "node id", "#n"], "pid": ["parent", "p", "PID", "from", "parent id", "up"],
+             "type": ["t", "kind", "label", "Type"], "x": ["px", "X", "pos_x"], "y": ["py", "Y", "pos_y"], "z": ["pz", "Z", "pos_z"],
+             "r": ["radius", "R", "rad", "width"]}
+NAME_SCOPES = ["id+pid", "all", "id", "pid", "id+pid+stray", "payload", "random"]
+
+
+def pick_names(rng, scope):
+    """the fields the caller renamed -> their column names"""
+    fields = {"id+pid": ["id", "pid"], "id+pid+stray": ["id", "pid"], "id": ["id"], "pid": ["pid"], "payload": ["type", "x", "r"],
+              "all": list(NAME_POOL), "random": ["id", "pid"] + [f for f in ("type", "x", "y", "z", "r") if rng.random() < 0.5]}[scope]
+    if scope == "random":  # names nobody listed
+        out, used = {}, set()
+        for f in fields:
+            while True:
+                w = "".join(rng.choice("abcdefghkmnpqrtuvw_") for _ in range(rng.randint(2, 7))) + rng.choice(["", "", "_" + f, " " + f])
+                if w not in used and w not in NAME_POOL and not re.fullmatch(r"e\d+|seg|note|m\d+_.*", w):
+                    break
+            used.add(w); out[f] = w
+        return out
+    return {f: rng.choice(NAME_POOL[f]) for f in fields}
+
+
+def add_names(rng, case, scope):
+    case["names"] = pick_names(rng, scope)
+    n = len(case["ids"])
+    if scope == "id+pid+stray":  # columns called like the defaults, holding something else (a database key, a count)
+        case["xcols"] = [{"name": nm_, "kind": "float-nan", "where": "none", "values": [rng.randint(-400, 400) / 4 for _ in range(n)]}
+                         for nm_ in (["id", "pid"] if rng.random() < 0.6 else [rng.choice(["id", "pid"])])]
+    case["class"] = f"names/{scope}/{'table' if case['form'] == 'table' else 'tree+table'}"
+    return case
+
+
 ROW_LABELS = ["permuted", "reversed", "shifted", "gapped", "text", "float", "range"]
 
 
@@ -514,12 +552,22 @@ class SortSuite(Suite):
                 c["class"] = f"row-labels/{lab}"
                 out.append(c)
                 j += 1
+        # the caller's own column names (names=SWCNames(...)): which fields are renamed x table / tree object x every numbering
+        j = 0
+        for rep in range(2 if quick else 8):
+            for scope in NAME_SCOPES:
+                n = rng.choice([3, 5, 8, 13, 21] if quick else [3, 5, 8, 13, 21, 40, 90])
+                form = ["table", "rootany", "table", "root0", "sorted"][(j + rep) % 5]
+                c = sort_case(rng, n, gen.pick_shape(rng, j + 3 * rep), form, span=ID_SPANS[j % 3] if j % 2 else None,
+                              rows=["shuffled", "by-id", "by-id-desc"][j % 3])
+                out.append(add_names(rng, c, scope))
+                j += 1
         return out
 
     def run(self, case):
         import pandas as pd
         from swcgeom.core import Tree
-        from swcgeom.core.swc_utils import is_sorted, read_swc, sort_nodes, sort_nodes_, sort_nodes_impl
+        from swcgeom.core.swc_utils import SWCNames, is_sorted, read_swc, sort_nodes, sort_nodes_, sort_nodes_impl
         from swcgeom.core.tree_utils import sort_tree
 
         ids = np.array(case["ids"], dtype=np.int32)
@@ -528,8 +576,13 @@ class SortSuite(Suite):
         res = {}
         (nid, npid), indices = sort_nodes_impl((ids.copy(), pids.copy()))
         res["impl"] = {"new_ids": nid.tolist(), "new_pids": npid.tolist(), "indices": indices.tolist()}
-        cols = {"id": ids, "type": np.array(case["types"], dtype=np.int32), "x": np.array(case["key"], dtype=np.float32),
-                "y": np.zeros(n, dtype=np.float32), "z": np.zeros(n, dtype=np.float32), "r": np.array(case["r"], dtype=np.float32), "pid": pids}
+        # the caller's column names: N maps the standard field to the column that holds it; kw is handed to every entry point that takes it
+        N = dict(case.get("names") or {})
+        cn = lambda c: N.get(c, c)
+        kw = {"names": SWCNames(**N)} if N else {}
+        cols = {cn("id"): ids, cn("type"): np.array(case["types"], dtype=np.int32), cn("x"): np.array(case["key"], dtype=np.float32),
+                cn("y"): np.zeros(n, dtype=np.float32), cn("z"): np.zeros(n, dtype=np.float32), cn("r"): np.array(case["r"], dtype=np.float32),
+                cn("pid"): pids}
         for j, e in enumerate(case["extra"]):
             cols[f"e{j}"] = np.array(e, dtype=np.float32)
         df = pd.DataFrame(cols)
@@ -541,12 +594,12 @@ class SortSuite(Suite):
         if case.get("labels"):
             df.index = row_labels(case["labels"], n)
         before = df.copy()
-        d2 = sort_nodes(df)
+        d2 = sort_nodes(df, **kw)
         res["df_input_unchanged"] = bool(df.equals(before))
 
         def pack(get, ex=True):
-            o = {"id": [int(v) for v in get("id")], "pid": [int(v) for v in get("pid")], "key": [int(v) for v in get("x")],
-                 "types": [int(v) for v in get("type")], "r": [float(v) for v in get("r")]}
+            o = {"id": [int(v) for v in get(cn("id"))], "pid": [int(v) for v in get(cn("pid"))], "key": [int(v) for v in get(cn("x"))],
+                 "types": [int(v) for v in get(cn("type"))], "r": [float(v) for v in get(cn("r"))]}
             for j in range(len(case["extra"])):
                 o[f"extra{j}"] = [float(v) for v in get(f"e{j}")] if ex else [case["extra"][j][case["key"].index(k)] for k in o["key"]]
             try:
@@ -564,15 +617,16 @@ class SortSuite(Suite):
             return o
 
         res["df"] = pack(lambda c: d2[c].tolist())
-        d3 = sort_nodes(d2)
+        d3 = sort_nodes(d2, **kw)
         res["df2"] = pack(lambda c: d3[c].tolist())
         d4 = before.copy()
-        sort_nodes_(d4)  # the in-place form of the table sort
+        sort_nodes_(d4, **kw)  # the in-place form of the table sort
         res["df_inplace"] = pack(lambda c: d4[c].tolist())
         res["is_sorted_in"] = bool(is_sorted((ids, pids)))
-        res["is_sorted_out"] = bool(is_sorted((d2["id"].to_numpy(), d2["pid"].to_numpy())))
+        res["is_sorted_out"] = bool(is_sorted((d2[cn("id")].to_numpy(), d2[cn("pid")].to_numpy())))
+
         # tree API needs ids = positions
-        if case["form"] != "table":
+        def run_tree():
             storage = case.get("storage", "own")
             mine = {k: v.copy() for k, v in cols.items()}
             if storage == "views":  # the float columns are columns of one 2-d block, the int columns slices of one buffer
@@ -592,22 +646,29 @@ class SortSuite(Suite):
             if storage == "readonly":
                 for v in mine.values():
                     v.setflags(write=False)
-            t = Tree(n, **mine)
+            t = Tree(n, **mine, **kw)
             for name, src in alias:  # standard columns: tree.ndata["r_raw"] = tree.r()
                 if not src.startswith("e"):
                     t.ndata[name] = t.ndata[src]
             expect_in = {k: np.array(t.get_ndata(k), copy=True) for k in t.ndata}
             st = sort_tree(t)
-            res["tree"] = pack(lambda c: st.get_ndata(c).tolist())
+            o = pack(lambda c: st.get_ndata(c).tolist())
             if xcols:  # a Tree holds numpy columns: only those kinds were given to it
-                res["tree"]["xcols"] = {k: v for k, v in res["tree"]["xcols"].items() if k in {c["name"] for c in tree_x}}
-                res["tree"]["xcols_given"] = [c["name"] for c in tree_x]
+                o["xcols"] = {k: v for k, v in o["xcols"].items() if k in {c["name"] for c in tree_x}}
+                o["xcols_given"] = [c["name"] for c in tree_x]
             if alias:
-                res["tree"]["alias"] = {name: [float(v) for v in st.get_ndata(name)] for name, _ in alias}
+                o["alias"] = {name: [float(v) for v in st.get_ndata(name)] for name, _ in alias}
             same = lambda a, b: bool(np.array_equal(a, b) or (a.dtype.kind == "f" and np.array_equal(a, b, equal_nan=True))
                                      or (a.dtype == object and a.tolist() == b.tolist()))
-            res["tree_input_unchanged"] = bool(all(same(t.get_ndata(k), cols[k]) for k in cols)
-                                               and all(same(t.get_ndata(k), expect_in[k]) for k in expect_in))
+            return o, bool(all(same(t.get_ndata(k), cols[k]) for k in cols) and all(same(t.get_ndata(k), expect_in[k]) for k in expect_in))
+
+        if case["form"] != "table" and not N:
+            res["tree"], res["tree_input_unchanged"] = run_tree()
+        elif case["form"] != "table":  # a tree object built with the caller's names (kept apart: judged under its own finding key)
+            try:
+                res["tree_names"], res["tree_names_input_unchanged"] = run_tree()
+            except Exception as e:  # noqa: BLE001
+                res["tree_names"] = {"exc": type(e).__name__, "msg": str(e)[:200]}
         # reading with sort_nodes=True
         lines = []
         for k in range(n):
@@ -615,9 +676,17 @@ class SortSuite(Suite):
             lines.append(f"{case['ids'][k]} {case['types'][k]} {case['key'][k]} 0 0 {case['r'][k]!r} {case['pids'][k]}{ex}\n")
         with warnings.catch_warnings():
             warnings.simplefilter("ignore")
-            dfr, _ = read_swc(io.StringIO("".join(lines)), sort_nodes=True, extra_cols=[f"e{j}" for j in range(len(case["extra"]))] or None)
-        res["read"] = pack(lambda c: dfr[c].tolist())
-        res["read"].pop("xcols", None)  # a file cannot hold these columns
+            try:
+                dfr, _ = read_swc(io.StringIO("".join(lines)), sort_nodes=True, extra_cols=[f"e{j}" for j in range(len(case["extra"]))] or None, **kw)
+            except Exception as e:  # noqa: BLE001
+                if not N:
+                    raise
+                # reading under the caller's names stops with a KeyError before any table exists, with and without sort_nodes (DESIGN §6:
+                # looked at, loud, the names are not among the read options the properties quantify over): recorded, not judged
+                dfr, res["read_names_exc"] = None, f"{type(e).__name__}: {str(e)[:120]}"
+        if dfr is not None:
+            res["read"] = pack(lambda c: dfr[c].tolist())
+            res["read"].pop("xcols", None)  # a file cannot hold these columns
         # a table with a history: derived from an earlier result by ordinary pandas steps, then sorted
         hist = case.get("history")
         if hist:
@@ -671,6 +740,18 @@ class SortSuite(Suite):
             if what in res:
                 out += check_relabelling(case, res[what], {"df": "sort_nodes", "df_inplace": "sort_nodes_", "read": "read_swc(sort_nodes=True)",
                                                            "tree": "sort_tree"}[what])
+        tn = res.get("tree_names")
+        if tn is not None:
+            # sort_tree on a tree object built with names=: the same property, one finding key of its own (at the time this family was
+            # added _sort_tree wrote the new numbering under the literal keys "id" / "pid")
+            what = f"sort_tree (tree object built with names={case['names']})"
+            if not isinstance(tn, dict) or "exc" in tn:
+                got = [("sort-raises", f"{what} raised {tn.get('exc') if isinstance(tn, dict) else tn!r}: {tn.get('msg') if isinstance(tn, dict) else ''}")]
+            else:
+                got = check_relabelling(case, tn, what)
+                if res.get("tree_names_input_unchanged") is False:
+                    got.append(("sort-mutates-input", f"{what} modified its argument"))
+            out += [("sort-names/sort_tree", f"[{k}] {m}") for k, m in got[:1]]
         # sorting again: relabelling of the sorted result, still sorted
         out += [(k + "/again", m) for k, m in check_relabelling(as_input(res["df"], case), res["df2"], "sort_nodes∘sort_nodes")]
         if not res["is_sorted_out"]:
@@ -703,6 +784,8 @@ class SortSuite(Suite):
             h = res.get("hist") if isinstance(res, dict) else None
             return bool(h) and len(case["ids"]) >= 3 and (h["in"]["id"] != list(range(len(case["ids"])))
                                                           or any(p >= i for i, p in zip(h["in"]["id"], h["in"]["pid"])))
+        if case.get("names"):
+            return len(case["ids"]) >= 3
         if case.get("xcols"):  # some entry is missing on a node whose row moves
             return len(case["ids"]) >= 3 and any(v is None for c in case["xcols"] for v in c["values"])
         return len(case["ids"]) >= 3
@@ -711,7 +794,9 @@ class SortSuite(Suite):
 SUITES = [SortSuite()]
 FAMILIES = ("input families of the oracle suite beyond shape x numbering x column storage: extra columns of every pandas kind with missing entries "
             "(NaN / None / NA / NaT; tables and tree objects); tables with a history (an earlier result of sort_nodes / sort_nodes_ / "
-            "read_swc(sort_nodes=True) renumbered, shuffled, re-rooted, copied by ordinary pandas steps and sorted again)")
+            "read_swc(sort_nodes=True) renumbered, shuffled, re-rooted, copied by ordinary pandas steps and sorted again); the caller's own column names "
+            "(names=SWCNames(...) with id / pid / payload fields renamed, random names, and extra columns that are merely CALLED id / pid) through "
+            "sort_nodes, sort_nodes_, is_sorted and Tree(..., names=) + sort_tree")
 TECHNIQUE = ("Lean 4 theorems: the stack loop of sort_nodes_impl equals a structural pre-order on Rose (induction, any shape/numbering/row order); "
              "the output is a bijective relabelling that transports the parent relation and permutes every column, with parents before children "
              "sort_nodes_impl itself is TRANSLATED from the current source on every run (harness/translate_algo.py → Gen/AlgoSort.lean: np.full_like fillers, list-as-stack, "
